@@ -264,6 +264,16 @@ type Check[C any] struct {
 	Name string
 	Gen  func(t *rapid.T) C
 	Run  func(c C) Result
+	// Repeat > 1: every generated or explicitly evaluated case (not the EvalFast enumerations) is executed this many times; the
+	// property must hold in every execution (the code under test may depend on map iteration order, pooled buffers, scheduling
+	// or a random source, so one passing execution of an input says little). Replays execute the case 16 times as often.
+	Repeat int
+}
+
+// Repeated sets Repeat and returns the check.
+func (c *Check[C]) Repeated(n int) *Check[C] {
+	c.Repeat = n
+	return c
 }
 
 type replayer func(raw json.RawMessage) (Result, error)
@@ -278,9 +288,24 @@ func Define[C any](name string, gen func(t *rapid.T) C, run func(c C) Result) *C
 		if err := json.Unmarshal(raw, &v); err != nil {
 			return Result{}, err
 		}
-		return c.safeRun(v), nil
+		return c.runTimes(v, 16*c.Repeat), nil
 	}
 	return c
+}
+
+// runTimes executes the case up to n times and returns the first failing result (else the first result).
+func (c *Check[C]) runTimes(v C, n int) Result {
+	first := c.safeRun(v)
+	if first.Err != nil {
+		return first
+	}
+	for i := 1; i < n; i++ {
+		if r := c.safeRun(v); r.Err != nil {
+			r.Err = fmt.Errorf("execution %d of the same case (the first %d held): %w", i+1, i, r.Err)
+			return r
+		}
+	}
+	return first
 }
 
 func (c *Check[C]) safeRun(v C) (res Result) {
@@ -329,7 +354,7 @@ func noteFailure(path string) {
 func (c *Check[C]) Eval(t testing.TB, v C) bool {
 	raw, _ := json.Marshal(v)
 	journal(c.Name, raw)
-	r := c.safeRun(v)
+	r := c.runTimes(v, c.Repeat)
 	record(c.Name, raw, r)
 	if r.Err != nil {
 		p := writeReplay(t.Name(), c.Name, raw, r.Err.Error())
@@ -381,7 +406,7 @@ func (c *Check[C]) Rapid(t *testing.T, n int) {
 		v := c.Gen(rt)
 		raw, _ := json.Marshal(v)
 		journal(c.Name, raw)
-		r := c.safeRun(v)
+		r := c.runTimes(v, c.Repeat)
 		if !failed {
 			record(c.Name, raw, r)
 		}
